@@ -416,6 +416,8 @@ class Interp:
         self.call_stack = []
         self.loop_counters = {}
         self.feas_timeout_ms = 300
+        self.entail_timeout_ms = 300
+        self.ctx_simplify = False
         from . import values
 
         values.set_current(self)
@@ -505,6 +507,24 @@ class Interp:
 
     def assume(self, cond):
         self.cond.append(cond)
+
+    def entails(self, cond, timeout_ms=None):
+        """path condition |= cond ?  (quantified facts dropped; `unknown` counts as no).  Used for context-aware
+        simplification of where/clip/index terms: every simplification is justified by a solver-checked entailment."""
+        s = z3.Solver()
+        s.set("timeout", timeout_ms or self.entail_timeout_ms)
+        for c in self.cond:
+            if not _has_quantifier(c):
+                s.add(c)
+        s.add(z3.Not(cond))
+        return s.check() == z3.unsat
+
+    def known_value(self, term):
+        """an equation `term == t` asserted verbatim in the path condition -> t"""
+        for c in self.cond:
+            if z3.is_eq(c) and c.arg(0).eq(term):
+                return c.arg(1)
+        return None
 
     def emit(self, oid, kind, goal, extra_hyps=(), **meta):
         self.emitted.append(Emitted(oid, kind, list(self.cond) + list(extra_hyps), goal, meta))
